@@ -104,6 +104,8 @@ def field_of_opaque(eng, v, idx):
     fn = getattr(v, 'field', None)
     if fn is not None:
         return fn(idx)
+    if isinstance(v, Opaque) and v.kind == 'box' and idx == 0:
+        return Cell(v)      # Box.0 (Unique) .0 (NonNull): the pointer chain is the box itself
     return None
 
 
@@ -132,4 +134,4 @@ def named_const(eng, c, path):
     return None
 
 
-from . import m_core, m_str, m_seq, m_iter, m_map, m_fmt, m_daac, m_io, m_bincode, m_liblinear      # noqa: E402,F401
+from . import m_core, m_str, m_seq, m_iter, m_map, m_fmt, m_daac, m_io, m_bincode, m_liblinear, m_cli      # noqa: E402,F401
